@@ -108,9 +108,16 @@ func RunWorker(prop, hname, tier string, caseIdx int, outDir string, verbose boo
 	if cases == 0 {
 		cases = 1
 	}
+	feasT, pipeT := 2*time.Second, 10*time.Second
+	if ts.FeasMs > 0 {
+		feasT = time.Duration(ts.FeasMs) * time.Millisecond
+	}
+	if ts.PipeMs > 0 {
+		pipeT = time.Duration(ts.PipeMs) * time.Millisecond
+	}
 	opt := interp.Options{
 		Harness: hname, OutDir: outDir, Case: caseIdx, Cases: cases,
-		FeasTimeout: 2 * time.Second, PipeTimeout: 10 * time.Second, PortTimeout: time.Duration(oblS) * time.Second,
+		FeasTimeout: feasT, PipeTimeout: pipeT, PortTimeout: time.Duration(oblS) * time.Second,
 		Backends: backends, MaxPaths: ts.MaxPaths, Deadline: start.Add(time.Duration(tmo) * time.Second),
 		Verbose: verbose, Pin: pin, Witnesses: witnessCount(h, tier, caseIdx),
 	}
